@@ -18,12 +18,16 @@ func buildPlan(id string, pinned map[string]string, tier string) *Plan {
 		for _, pk := range fps {
 			// default build configuration: the Go-bodied functions (assembly entry points are assumed contracts)
 			p.Units = append(p.Units, Unit{Pkg: pk, Tags: "", Groups: []string{"field", "conv", "vector"}})
+			if _, err := os.Stat("/repo/" + strings.TrimPrefix(pk, "./") + "/zz_verif_contracts_exp.go"); err == nil {
+				p.Units = append(p.Units, Unit{Pkg: pk, Tags: "", Groups: []string{"exp"}})
+			}
 		}
 		p.Trusted = []string{"pinned moduli in /verif/contracts/params.json (published curve parameters)",
 			"product abstraction: a product of two symbolic words is an opaque integer constrained only by its interval bound (sound: only weakens hypotheses)",
 			"lemma schema mulmono: a <= b && c >= 0 ==> a*c <= b*c (hypotheses discharged per instance)"}
-		p.Assumptions = []string{"Element.Div is proved equal to x * inv(y) with inv = Element.Inverse interpreted (not proved) at the ring layer: Inverse's addition chain / Pornin inversion is not under contract"}
-		p.NotCovered = []string{"Inverse, Exp, Sqrt, Legendre, BatchInvert, SetRandom: not under contract; the AVX-512 / assembly vector kernels are outside (the portable vector loops are under contract)"}
+		p.Assumptions = []string{"Element.Exp: z = x^k (k >= 0) / inv(x)^(-k) (k < 0) at the ring layer, with math/big's BitLen / Bit / Neg / Sign / IsUint64 / Uint64 interpreted by their documented meaning (hi(e, i) = floor(e / 2^i), BitLen(e) = L with hi(e, L-1) = 1 for e > 0: assumed contracts of math/big) and the scratch integer taken from the pool as an arbitrary fresh cell; the lemma x^(2h) = (x^h)^2 is proved by induction (theorem block: base and step discharged)",
+			"Element.Div is proved equal to x * inv(y) with inv = Element.Inverse interpreted (not proved) at the ring layer: Inverse's addition chain / Pornin inversion is not under contract"}
+		p.NotCovered = []string{"Inverse, Sqrt, Legendre, BatchInvert, SetRandom: not under contract; the AVX-512 / assembly vector kernels are outside (the portable vector loops are under contract)"}
 		p.Note = "Every arithmetic entry point under contract is verified against its integer-mod-q specification for all inputs and all alias partitions of its pointer operands."
 		return p
 	case "C08":
